@@ -92,6 +92,10 @@ fn corpus(ctx: &Ctx) -> Vec<(String, String)> {
     // a slice of the ST-core corpus: the first case of every feature
     let mut seen = std::collections::HashSet::new();
     for c in crate::stcore::families::corpus(false) {
+        // programs that are meant not to terminate (F14) need a wall-clock budget to end: not here
+        if c.prog.budget_ms.is_some() {
+            continue;
+        }
         if seen.insert((c.family, c.feature.clone())) {
             out.push((format!("stcore:{}:{}", c.family, c.feature), c.text()));
         }
